@@ -5,8 +5,10 @@ import (
 	"encoding/json"
 	"errors"
 	"fmt"
+	"io"
 	"os"
 	"path/filepath"
+	"strings"
 	"sync/atomic"
 	"syscall"
 	"testing"
@@ -68,6 +70,9 @@ func findMarker(hay []byte, markers [][]byte) string {
 type RestCase struct {
 	Ops    []dbx.Op `json:"ops"` // names and values are high-entropy markers
 	Poison bool     `json:"poison"`
+	// indices of calls during which the state directory is unavailable, so that a save fails and the
+	// server has to undo the change in memory - still without the key-encryption key
+	FailSave []int `json:"fail_save,omitempty"`
 }
 
 func genMarker(rt *rapid.T, label string) []byte {
@@ -94,6 +99,9 @@ func genRestCase(rt *rapid.T) RestCase {
 		}
 	}
 	c := RestCase{Poison: rapid.Bool().Draw(rt, "poison")}
+	if rapid.IntRange(0, 2).Draw(rt, "withoutage") == 0 {
+		c.FailSave = rapid.SliceOfN(rapid.IntRange(0, 13), 1, 3).Draw(rt, "failsave")
+	}
 	c.Ops = rapid.SliceOfN(rapid.Custom(func(rt *rapid.T) dbx.Op {
 		o := dbx.GenOp(rt, names, []string{"put", "put", "put", "activate", "delver", "del", "get", "getver", "list"}, 1)
 		if o.Kind == "put" {
@@ -147,6 +155,37 @@ func runC05Scan(t *testing.T, c RestCase) (*h.Violation, h.Info) {
 	saves := 0
 	for i, op := range c.Ops {
 		ver := tr.Resolve(op)
+		outage := false
+		for _, f := range c.FailSave {
+			if f == i && wouldSave(tr.M, op, ver) {
+				outage = true
+			}
+		}
+		if outage {
+			away := dir + ".away"
+			if err := os.Rename(dir, away); err != nil {
+				return h.V("harness", "rename: %v", err), info
+			}
+			got := tgt.Do(su, op, ver)
+			if err := os.Rename(away, dir); err != nil {
+				return h.V("harness", "rename back: %v", err), info
+			}
+			info.Class("save-failed-and-was-undone")
+			if got.Class == model.OK {
+				return h.V("harness", "step %d %s reported success while the state directory was unavailable (C03/C04 decide that)", i, op), info
+			}
+			if n := kek.calls.Load(); n != openCalls {
+				return h.V("kek-only-at-open", "step %d %s: its save failed, and while undoing the change the key-encryption key was used %d more time(s) after Open returned", i, op, n-openCalls), info
+			}
+			if dump, err := dbx.Dump(d); err != nil || dbx.DumpDiff(dump, tr.M) != "" {
+				clause := "result-equals-model"
+				if c.Poison {
+					clause = "running-server-independent-of-kek"
+				}
+				return h.V(clause, "step %d %s: after its save failed the server holds %v %s (KEK poisoned=%v)", i, op, err, dbx.DumpDiff(dump, tr.M), c.Poison), info
+			}
+			continue
+		}
 		want := tr.Expect(su.Rules, op, ver)
 		got := tgt.Do(su, op, ver)
 		if diff := dbx.Compare(got, want); diff != "" {
@@ -220,15 +259,49 @@ func runC05Scan(t *testing.T, c RestCase) (*h.Violation, h.Info) {
 	if info.NonTrivial {
 		info.Class("scan-with>=3-saves")
 	}
+	if len(c.FailSave) > 0 {
+		// Saves that fail while the database file stays READABLE: the file gets a name so long that no
+		// temporary can be created next to it (the temporary's name would exceed NAME_MAX). Whatever the
+		// server does to get back to the pre-call state, it does it without the key-encryption key.
+		long := filepath.Join(dir, strings.Repeat("n", 250))
+		if err := os.Rename(dbPath, long); err != nil {
+			return h.V("harness", "rename to a long name: %v", err), info
+		}
+		kek2 := &countingKEK{inner: inner}
+		d4, err := db.Open(long, kek2, audit.New(io.Discard))
+		if err != nil {
+			return h.V("reopen-succeeds", "open under a long file name: %v", err), info
+		}
+		base := kek2.calls.Load()
+		t4 := dbx.DBTarget{D: d4}
+		probes := []dbx.Op{{Kind: "put", Name: "probe-after-open", Val: []byte("p1")}}
+		for _, n := range tr.M.Names() {
+			probes = append(probes, dbx.Op{Kind: "put", Name: n, Val: []byte("another value")}, dbx.Op{Kind: "del", Name: n})
+			break
+		}
+		for _, op := range probes {
+			got := t4.Do(su, op, 0)
+			if got.Class == model.OK {
+				return h.V("harness", "%s succeeded although no temporary can be created next to a 250-character file name", op), info
+			}
+			if n := kek2.calls.Load(); n != base {
+				return h.V("kek-only-at-open", "%s: its save failed (the database file itself stayed readable), and the key-encryption key was used %d more time(s) after Open returned", op, n-base), info
+			}
+			if dump, err := dbx.Dump(d4); err != nil || dbx.DumpDiff(dump, tr.M) != "" {
+				return h.V("reopen-equals-model", "%s failed, yet the server now holds %v %s", op, err, dbx.DumpDiff(dump, tr.M)), info
+			}
+		}
+		info.Class("saves-fail-while-the-file-stays-readable")
+	}
 	return nil, info
 }
 
 var c05scan = &h.Campaign[RestCase]{
 	Prop: "C05", Sub: "scan",
-	Rule: "rapid: histories (3-14 calls) whose names and values are >=16-byte high-entropy markers (binary, JSON-special printable, hex-looking), state directory laid out as the server does (database + audit.log via audit.NewFile), real AES-256-GCM KEK behind a counting/poisonable wrapper, umask 0; after EVERY call every file is scanned for every value (raw, hex both cases, base64 std/url at all three alignments, JSON-escaped) and, except audit.log, for every name; mode bits checked; KEK call count must not move after Open (with the KEK poisoned in half the cases); finally a foreign KEK must fail to open and leave the file untouched; non-trivial = >= 3 successful saves scanned; distinct by scenario",
+	Rule:  "rapid: histories (3-14 calls) whose names and values are >=16-byte high-entropy markers (binary, JSON-special printable, hex-looking), state directory laid out as the server does (database + audit.log via audit.NewFile), real AES-256-GCM KEK behind a counting/poisonable wrapper, umask 0; after EVERY call every file is scanned for every value (raw, hex both cases, base64 std/url at all three alignments, JSON-escaped) and, except audit.log, for every name; mode bits checked; KEK call count must not move after Open (with the KEK poisoned in half the cases); finally a foreign KEK must fail to open and leave the file untouched; non-trivial = >= 3 successful saves scanned; distinct by scenario",
 	Quick: 2000, Thorough: 300000,
-	Gen:   genRestCase,
-	Run:   runC05Scan,
+	Gen: genRestCase,
+	Run: runC05Scan,
 }
 
 // ---- tampering ---------------------------------------------------------------
@@ -239,7 +312,13 @@ type TamperCase struct {
 	Kind  string   `json:"kind"`  // bit | truncate | mix | all-bits | all-prefixes
 	Pos   int      `json:"pos"`   // bit index or prefix length, taken modulo the file size
 	MixFr [3]bool  `json:"mix"`   // Version, DEK, DB taken from B?
+	// a complete, valid, OLDER image of the same database lies next to the file under the name a
+	// save that was interrupted between fsync and rename would have left behind
+	Leftover bool `json:"leftover,omitempty"`
 }
+
+// leftoverImage, when set, is written as "<file>.tmp<digits>" next to every file tryOpen opens.
+var leftoverImage []byte
 
 func buildDB(path string, key tink.AEAD, ops []dbx.Op) (*dbx.Tracker, error) {
 	d, err := dbx.OpenDiscard(path, key)
@@ -263,6 +342,11 @@ func tryOpen(dir string, data []byte, key tink.AEAD) (opened bool, dump string, 
 	p := filepath.Join(dir, "tampered")
 	os.WriteFile(p, data, 0o600)
 	defer os.Remove(p)
+	if leftoverImage != nil {
+		lp := p + ".tmp2716057341"
+		os.WriteFile(lp, leftoverImage, 0o600)
+		defer os.Remove(lp)
+	}
 	defer func() {
 		if r := recover(); r != nil {
 			problem = fmt.Sprintf("panic: %v", r)
@@ -295,6 +379,17 @@ func runC05Tamper(t *testing.T, c TamperCase) (*h.Violation, h.Info) {
 	}
 	orig, _ := os.ReadFile(pa)
 	want := tra.M.Render(false)
+	leftoverImage = nil
+	if c.Leftover && len(c.Ops) > 0 {
+		// the image of the same database (same data key) before its last operation
+		pe := filepath.Join(dir, "earlier")
+		if tre, err := buildDB(pe, key, c.Ops[:len(c.Ops)-1]); err == nil && tre.M.Render(false) != want {
+			// same KEK, its own data key: also what a restored older backup would be
+			leftoverImage, _ = os.ReadFile(pe)
+			info.Class("older-valid-image-left-next-to-the-file")
+		}
+		defer func() { leftoverImage = nil }()
+	}
 	judge := func(kind string, pos int, data []byte) *h.Violation {
 		if bytes.Equal(data, orig) {
 			return nil
@@ -383,6 +478,7 @@ func runC05Tamper(t *testing.T, c TamperCase) (*h.Violation, h.Info) {
 func genTamperCase(rt *rapid.T) TamperCase {
 	c := TamperCase{Ops: dbx.GenHistory(rt, 0, 8), Pos: rapid.IntRange(0, 1<<20).Draw(rt, "pos")}
 	c.Kind = rapid.SampledFrom([]string{"bit", "bit", "bit", "truncate", "truncate", "mix"}).Draw(rt, "kind")
+	c.Leftover = rapid.IntRange(0, 3).Draw(rt, "leftover") == 0
 	if c.Kind == "mix" {
 		c.OpsB = dbx.GenHistory(rt, 1, 8)
 		c.MixFr = [3]bool{rapid.Bool().Draw(rt, "v"), rapid.Bool().Draw(rt, "dek"), rapid.Bool().Draw(rt, "db")}
@@ -392,10 +488,10 @@ func genTamperCase(rt *rapid.T) TamperCase {
 
 var c05tamper = &h.Campaign[TamperCase]{
 	Prop: "C05", Sub: "tamper",
-	Rule: "rapid: a database built by a random history under a real KEK, then ONE corruption: a single-bit flip at a generated position, a truncation at a generated length, or a proper mixture of the wrapper fields (Version/DEK/DB) of two different databases under the same KEK; Open must fail (leaving the file untouched) or yield exactly the original contents, never different contents or a panic; every corrupted file differs from the original, so every case is non-trivial (mixtures of equal databases are discounted); distinct by scenario",
+	Rule:  "rapid: a database built by a random history under a real KEK, then ONE corruption: a single-bit flip at a generated position, a truncation at a generated length, or a proper mixture of the wrapper fields (Version/DEK/DB) of two different databases under the same KEK; in one case of four a complete, valid image of an OLDER state under the same KEK lies next to the file under a leftover-temporary name; Open must fail (leaving the file untouched) or yield exactly the original contents, never different contents or a panic; every corrupted file differs from the original, so every case is non-trivial (mixtures of equal databases are discounted); distinct by scenario",
 	Quick: 12000, Thorough: 2000000,
-	Gen:   genTamperCase,
-	Run:   runC05Tamper,
+	Gen: genTamperCase,
+	Run: runC05Tamper,
 }
 
 // Exhaustive: every single-bit flip and every truncation point of saved files.
